@@ -2,6 +2,7 @@
 """Shared plumbing for the per-property checks: TLC runner, Go harness runner (overlay build from
 /repo's current working tree), evidence writer, verdict discipline (exit 0 / 1 / 2)."""
 import hashlib
+import threading
 import json
 import os
 import re
@@ -16,6 +17,9 @@ SPEC = os.path.join(VERIF, "spec")
 HARNESS = os.path.join(VERIF, "harness")
 MODPATH = "github.com/cbeuw/Cloak"
 NCPU = os.cpu_count() or 4
+
+
+_CTX_LOCK = threading.Lock()
 
 
 class Inconclusive(Exception):
@@ -150,8 +154,9 @@ def run_tlc(ctx, module, cfg, subst=None, workers=None, simulate=None, depth=Non
     r.ok = (p.returncode == 0 and r.violated is None)
     if r.violated:
         r.cex = _parse_cex(p.stdout)
-    ctx.tlc_states += r.distinct
-    ctx.tlc_transitions += r.generated
+    with _CTX_LOCK:
+        ctx.tlc_states += r.distinct
+        ctx.tlc_transitions += r.generated
     ctx.tlc_runs.append({"tag": tag, "cmd": " ".join(cmd), "generated": r.generated, "distinct": r.distinct,
                          "wall_s": round(r.wall, 2), "violated": r.violated,
                          "behaviours": len(r.behaviours)})
